@@ -154,3 +154,13 @@ Lemma fix_is_conservative chs :
 Proof.
   intro HF. unfold concatenate_pulses. rewrite (unfixed_all chs None None HF). reflexivity.
 Qed.
+
+(* moderate is satisfiable *)
+Definition wit_mod : list (list pinstr) := [[mkP 0 (Scalar 1 3); mkP 3 (Scalar 2 5)]].
+Lemma wit_mod_ok : Forall moderate wit_mod.
+Proof.
+  unfold wit_mod. apply Forall_cons; [|apply Forall_nil]. split.
+  - split; [apply wf_scalar; reflexivity|]. split; [cbn; lra|].
+    split; [apply wf_scalar; reflexivity|]. split; [unfold p_end, wave_end; cbn; lra|exact I].
+  - split; [|exact I]. unfold p_end, wave_end, tol. cbn. lra.
+Qed.
